@@ -124,10 +124,17 @@ Definition parse_uint (max : N) (bs : list N) : option N :=
       else pdigits max 0 bs
   end.
 
-(** [&v[a..b]]: panics when out of range (the bytes are ASCII when the slices are taken, so
-    there is no char-boundary panic). *)
+(** [&v[a..b]] on a [str] whose UTF-8 bytes are [v]: panics unless [a <= b <= len] and both
+    indices are char boundaries ([str::is_char_boundary]: the end of the string, or a byte that
+    is not a continuation byte 0x80..0xBF). *)
+Definition is_boundary (v : list N) (k : nat) : bool :=
+  match nth_error v k with
+  | None => (k =? length v)%nat
+  | Some c => negb ((128 <=? c) && (c <=? 191))
+  end.
 Definition slice (v : list N) (a b : nat) : option (list N) :=
-  if (b <=? length v)%nat then Some (firstn (b - a) (skipn a v)) else None.
+  if (a <=? b)%nat && (b <=? length v)%nat && is_boundary v a && is_boundary v b
+  then Some (firstn (b - a) (skipn a v)) else None.
 
 (** the conjuncts of the big [if !( .. && .. )] of the date rule, in source order *)
 Inductive dstep :=
